@@ -586,4 +586,80 @@ def Spec.neverOverlap : Spec.State → List Op → Prop
     ((Spec.deliveries s ch).map (·.1)).Nodup ∧ Spec.neverOverlap (Spec.next s (.publish p ch msg)) ops
   | s, op :: ops => Spec.neverOverlap (Spec.next s op) ops
 
+/-! ## Connections: closing, subscriber context, blocking
+
+One level above the pub/sub calls (`src/network/server.rs`): when the server decides to close a
+connection, which commands a connection may send, and which connections the event loop serves.
+Two switches, read off the source by the translator:
+* `releaseAtClose` — `true`: `unsubscribe_all(id)` at the moment a connection is marked as closing
+  (CLIENT KILL by another client, its own QUIT, a protocol error); `false` (the tree before the
+  repair): only when it is physically removed, at the end of a later loop iteration.
+* `gate` — `true`: subscriber context, a connection that holds subscriptions may only send
+  (P)SUBSCRIBE, (P)UNSUBSCRIBE, PING, QUIT; `false`: any command, also one that blocks. -/
+
+structure Quirks where
+  releaseAtClose : Bool
+  gate : Bool
+
+inductive LOp where
+  /-- a pub/sub command of a client, or the physical removal of a connection (`.disconnect c`) -/
+  | op (o : Op)
+  /-- the server marks connection `c` as closing -/
+  | close (c : ConnId)
+  /-- any other command sent by `c` (PING and QUIT aside); `blocks`: one that blocks when it is
+      executed (BLPOP on an empty list, time-out 0) -/
+  | cmd (c : ConnId) (blocks : Bool)
+  /-- a blocked connection is served again -/
+  | unblock (c : ConnId)
+  deriving Repr
+
+/-- The connection a command comes from (`none`: the removal is the server's own act). -/
+def Op.sender : Op → Option ConnId
+  | .subscribe c _ _ => some c
+  | .unsubscribe c _ _ => some c
+  | .publish c _ _ => some c
+  | .disconnect _ => none
+
+def Op.isPublish : Op → Bool
+  | .publish _ _ _ => true
+  | _ => false
+
+/-- `PubSubManager::is_subscribed` -/
+def subscribed (st : State) (c : ConnId) : Bool := (aget st.subs c).isSome
+
+structure Sess where
+  st : State := {}
+  /-- marked as closing, not yet removed: executes nothing more -/
+  closed : List ConnId := []
+  /-- blocked: left out of the event loop's pass, executes nothing, its output is not flushed -/
+  blocked : List ConnId := []
+
+/-- One step: the new session and the pub/sub operations that were really executed. -/
+def Sess.step (q : Quirks) (s : Sess) : LOp → Sess × List Op
+  | .op (.disconnect c) =>
+    ({ st := unsubscribeAll s.st c, closed := srem s.closed c, blocked := srem s.blocked c }, [.disconnect c])
+  | .op o =>
+    match o.sender with
+    | some c =>
+      if c ∈ s.closed ∨ c ∈ s.blocked then (s, [])
+      else if q.gate && subscribed s.st c && o.isPublish then (s, [])      -- refused with an error
+      else ({ s with st := Code.next s.st o }, [o])
+    | none => (s, [])
+  | .close c =>
+    if q.releaseAtClose then ({ s with st := unsubscribeAll s.st c, closed := sins s.closed c }, [.disconnect c])
+    else ({ s with closed := sins s.closed c }, [])
+  | .cmd c blocks =>
+    if c ∈ s.closed ∨ c ∈ s.blocked then (s, [])
+    else if q.gate && subscribed s.st c then (s, [])                        -- refused with an error
+    else if blocks then ({ s with blocked := sins s.blocked c }, [])
+    else (s, [])
+  | .unblock c => ({ s with blocked := srem s.blocked c }, [])
+
+def Sess.run (q : Quirks) : Sess → List LOp → Sess × List Op
+  | s, [] => (s, [])
+  | s, lo :: l =>
+    let r := Sess.step q s lo
+    let r' := Sess.run q r.1 l
+    (r'.1, r.2 ++ r'.2)
+
 end Ferrous.PubSub
